@@ -86,6 +86,12 @@ fn mk(s: &VSpec, rev: bool) -> ReplicatedValue {
         for (r, n) in ordered(e, rev) {
             g.increment_by(ReplicaId(r), n);
         }
+        // the second build of a state also carries what an `INCRBY key 0` leaves behind: a slot holding 0 for a replica the
+        // first build never mentions. The two counters are equal (GCounter's own PartialEq and every read say so), so the
+        // digests must be, and a sync must not keep shipping the key.
+        if rev {
+            g.increment_by(ReplicaId(7), 0);
+        }
         g
     };
     let crdt = match &s.body {
@@ -105,6 +111,10 @@ fn mk(s: &VSpec, rev: bool) -> ReplicatedValue {
             }
             for (r, k) in ordered(n, rev) {
                 c.decrement_by(ReplicaId(r), k);
+            }
+            if rev {
+                c.increment_by(ReplicaId(7), 0);
+                c.decrement_by(ReplicaId(8), 0);
             }
             CrdtValue::PNCounter(c)
         }
@@ -230,10 +240,10 @@ fn pi(v: &ReplicatedValue) -> BTreeMap<&'static str, String> {
             m.insert("hash-field-stamps", format!("{:?}", st));
         }
         CrdtValue::GCounter(g) => {
-            m.insert("counter-entries", format!("total={} {}", g.value(), canon(&json!(g))));
+            m.insert("counter-entries", format!("total={} {}", g.value(), canon(&strip_zero_slots(json!(g)))));
         }
         CrdtValue::PNCounter(p) => {
-            m.insert("counter-entries", format!("total={} {}", p.value(), canon(&json!(p))));
+            m.insert("counter-entries", format!("total={} {}", p.value(), canon(&strip_zero_slots(json!(p)))));
         }
         CrdtValue::GSet(g) => {
             m.insert("set-membership", format!("{:?}", g.elements().collect::<BTreeSet<_>>()));
@@ -247,6 +257,16 @@ fn pi(v: &ReplicatedValue) -> BTreeMap<&'static str, String> {
         }
     }
     m
+}
+
+/// A per-replica slot holding 0 is the same state as no slot (the counters' own PartialEq, value() and get_replica_count()
+/// say so): not an observable.
+fn strip_zero_slots(v: Value) -> Value {
+    match v {
+        Value::Object(m) => Value::Object(m.into_iter().filter(|(_, x)| x.as_u64() != Some(0)).map(|(k, x)| (k, strip_zero_slots(x))).collect()),
+        Value::Array(a) => Value::Array(a.into_iter().map(strip_zero_slots).collect()),
+        other => other,
+    }
 }
 
 fn vdiff(a: &ReplicatedValue, b: &ReplicatedValue) -> BTreeSet<&'static str> {
